@@ -30,6 +30,7 @@ type PEngine struct {
 	globNN       map[*ssa.Global]int
 	NonNegFields map[string]map[string]bool                // class -> excluded functions; fields assumed >= 0 once proven
 	NonNilIn     func(fn *ssa.Function, class string) bool // gating facts: field class is non-nil inside fn
+	EnumConv     bool
 }
 
 func NewPEngine(p *Prog, o *OEngine) *PEngine {
@@ -1110,6 +1111,16 @@ func (pf *pfunc) implicitFacts(atoms map[string]*vn, fs *factSet) {
 		}
 		if a.op == "phi" {
 			pf.inductionFacts(a, fs)
+		}
+		if a.op == "bin" && a.tok == token.REM && a.args[1].op == "const" && !pf.inQuot {
+			if cm, ok := constValInt(a.args[1].c); ok && cm.Sign() > 0 && cm.IsInt64() {
+				pf.inQuot = true
+				nonneg := pf.prove(pf.linOf(a.args[0]), fs)
+				pf.inQuot = false
+				if nonneg {
+					fs.add(fact{l: la, why: "remainder of a non-negative dividend"})
+				}
+			}
 		}
 		if a.op == "extract" && a.name == "0" && a.args[0].op == "call" && strings.HasPrefix(a.args[0].name, "io.ReadFull") && len(a.args[0].args) == 2 {
 			// contract of io.ReadFull: 0 <= n <= len(buf)
